@@ -857,6 +857,11 @@ def rule_regex(ctx: Ctx) -> RuleReport:
                 rep.ok({"pattern": text[:60], "ambiguous_loop": True, "exempt": REGEX_EXEMPT[(m.rel, text)][:200]})
             else:
                 rep.fail(Finding("C01-REGEX", m.rel, "<module>" if True else "", "regex " + text[:120], f"the pattern `{text[:100]}` has an exponentially ambiguous loop: {w}. On input that makes the rest of the pattern fail the matcher tries every division (2^n for n repetitions): the extraction never returns", line=c.lineno))
+    # a scan whose cost grows with the square of the input does return, but not in any time a caller waits for: the one place where a
+    # restart-prone pattern meets input of unbounded length (= the HTML clause of C12-REGEX)
+    from sa.rules.c12 import html_sniff_window
+
+    html_sniff_window(ctx, rep, "C01-REGEX")
     return rep
 
 
